@@ -274,6 +274,12 @@ func cmdC14(c *ctx) {
 		case 2:
 			knob = "bigval" // values/literals whose products exceed 2^32 (known finding: folding in float64)
 		}
+		// every 24th module (a clean one) sizes a workgroup array by an override; its choices are derived from i, not drawn,
+		// so that the other classes see the same random stream as before
+		ovarr := i%24 == 6
+		if ovarr {
+			knob = "ovarr"
+		}
 		var ovs []ovDecl
 		nov := 1 + c.rng.Intn(4)
 		usedID := map[int]bool{}
@@ -331,6 +337,16 @@ func cmdC14(c *ctx) {
 				}
 			default:
 				o.val = float64(c.rng.Intn(17) - 8)
+			}
+			ovs = append(ovs, o)
+		}
+		arrLen := 0
+		if ovarr {
+			o := ovDecl{name: "ovn", ty: tU32, id: -1, init: lit32(tU32, uint32(1+i/24%8)), how: "absent"}
+			arrLen = 1 + i/24%8
+			if i/24/8%2 == 1 {
+				o.how, o.val = "name", float64(1+(i/24+3)%8)
+				arrLen = int(o.val)
 			}
 			ovs = append(ovs, o)
 		}
@@ -416,6 +432,16 @@ func cmdC14(c *ctx) {
 		// body: every override, and an expression over overrides, observed through outp
 		var body []*wstmt
 		slot := 0
+		if ovarr {
+			// var<workgroup> warr: array<u32, ovn>; its last element written and read back
+			decls.WriteString("var<workgroup> warr: array<u32, ovn>;\n")
+			ref.globals = append(ref.globals, &wglobal{name: "warr", space: "workgroup", ty: tArr(arrLen, tU32)})
+			elem := func() *wexpr {
+				return &wexpr{k: "idx", ty: tU32, args: []*wexpr{{k: "var", ty: tArr(arrLen, tU32), name: "warr"}, lit32(tU32, uint32(arrLen-1))}}
+			}
+			body = append(body, &wstmt{k: "assign", lhs: elem(), e: wBin(tU32, "+", wInp(1), lit32(tU32, 7))}, wStore(15, elem()))
+			c.count("shape:override-sized-workgroup-array")
+		}
 		for _, o := range ovs {
 			v := &wexpr{k: "var", ty: o.ty, name: o.name, konst: true}
 			st := encStores(v, o.ty)
@@ -574,7 +600,7 @@ func cmdC14(c *ctx) {
 		emit(fmt.Sprintf("(c14 (expecterr %s) (ast %s) (ir %s) (inputs %s %s))", q(expectErr), ref.sexp(), dumpModule(clone), wordsSexp(0, inp), wordsSexp(1, outp)), status)
 		// the back ends' own pipeline-constant options (msl: its own substitution; glsl: ProcessOverrides on an internal
 		// clone): the emitted text, executed, must compute what the substituted reference program computes
-		if expectErr == "" && (knob == "clean" || knob == "badval") {
+		if expectErr == "" && (knob == "clean" || knob == "badval" || knob == "ovarr") {
 			for _, route := range []string{"msl", "glsl"} {
 				m2, _ := frontEnd(src)
 				if m2 == nil {
